@@ -13,6 +13,7 @@ import QuantityModel.Proofs.UnitOps
 import QuantityModel.Proofs.Invariants
 import QuantityModel.Proofs.Quantity
 import QuantityModel.Proofs.RegistryTerm
+import QuantityModel.Proofs.Resolve
 namespace QM.Props.C02
 open QM QM.QState
 
@@ -130,6 +131,41 @@ theorem resolution_depends_on_denotation (r : RegState)
   have := (termEq_iff r.unitEnv hk hd hnc t₁ t₂ hsep h₁ h₂).mpr ⟨hn, he⟩
   unfold termEq at this
   simpa using this
+
+/-- **Completeness: a product is defined whenever a type of the combined
+dimension is declared.**  `K` is the key under which some unit `w` is
+registered in the term directory — for a type with reference unit, the
+normalised definition of its reference unit: the product of the base types'
+reference units, with factor 1 — and it carries exactly the exponents the term
+`t` (e.g. `u·v`, `u/v`, `u^n`) denotes.  Then the resolution of `t` does not
+fail, whatever numeric factor `t` carries.  (`K` is a constructed normal form:
+`hKnf`, `hKmk`.  With a registered unit of that dimension but another factor
+only, the second look-up misses: known finding D2.) -/
+theorem resolution_complete (r : RegState)
+    (hd : DefsBaseOnly r.unitEnv) (hnc : BaseNoConv r.unitEnv)
+    (t : Items) (ht : Clean t) (K : Items) (w : Nat) (hK : (K, w) ∈ r.termMap)
+    (hKnf : normalizedItems r.unitEnv K = K) (hKmk : mkTerm r.unitEnv K = K)
+    (hK1 : numVal K = 1) (hsep : KeysSeparate r.unitEnv t K)
+    (hexp : ∀ a, expOf a (expanded r.unitEnv t) = expOf a K) :
+    r.amntAndUnit t ≠ none :=
+  amntAndUnit_complete r hd hnc t ht K w hK hKnf hKmk hK1 hsep hexp
+
+/-- ... so `unit × unit` raises UndefinedResultError only if no such unit is
+registered (with `unit_product_undefined_iff`: exactly then, for types with
+reference unit) -/
+theorem unit_product_defined_of_registered_dimension (u v : Nat)
+    (hmiss : s.reg.opCache.lookup (UOp.mul, u, v) = none)
+    (hd : DefsBaseOnly s.reg.unitEnv) (hnc : BaseNoConv s.reg.unitEnv)
+    (ht : Clean (mkTerm s.reg.unitEnv [(.atom u, 1), (.atom v, 1)]))
+    (K : Items) (w : Nat) (hK : (K, w) ∈ s.reg.termMap)
+    (hKnf : normalizedItems s.reg.unitEnv K = K) (hKmk : mkTerm s.reg.unitEnv K = K)
+    (hK1 : numVal K = 1)
+    (hsep : KeysSeparate s.reg.unitEnv (mkTerm s.reg.unitEnv [(.atom u, 1), (.atom v, 1)]) K)
+    (hexp : ∀ a, expOf a (expanded s.reg.unitEnv
+        (mkTerm s.reg.unitEnv [(.atom u, 1), (.atom v, 1)])) = expOf a K) :
+    (s.mulUnits u v).2 ≠ .error .UndefinedResultError := by
+  rw [Ne, unit_product_undefined_iff u v hmiss]
+  exact amntAndUnit_complete s.reg hd hnc _ ht K w hK hKnf hKmk hK1 hsep hexp
 
 /-- the same for EVERY state reachable by declarations (valid or rejected, in
 any order) with a fresh operation cache: the directory invariant is not an
